@@ -13,7 +13,8 @@ RULE = ("Cases = (row-length vector, row selector, optional column selector, sur
         "grammar of DESIGN.md section 3 over position-coded int64 content (cell = 1000*row+col), compared with "
         "Python list/slice semantics on the list of rows.  Non-trivial = the selection contains an empty row, or a "
         "slice bound is clamped (beyond the row count / a selected row's length), or a step is negative or |step|>1, "
-        "or refusal is expected.  distinct = distinct canonical JSON of the case.")
+        "or refusal is expected.  distinct = distinct canonical JSON of the case."
+        "  The indexed array is fresh, one of 6 kinds of pending selection, or the result of a[...], a[()], a ufunc, astype, concatenate; row lists include perturbed identity lists and lists with one entry just outside [-n, n) (refused).")
 ASSUMPTIONS = ["Python list/slice semantics and numpy per-row application are the oracle",
                "sizes bounded (<= 40 rows, rows <= 70 cells); selectors outside the stated grammar are not asserted"]
 
